@@ -451,3 +451,24 @@ def main(ctx):
 
     object_world(ctx, "several-objects", kinds, lambda kind: WCS(dict(KINDS[kind])), [("i2s",), ("s2i",), ("naxis",)], w_do,
                  w_modules, depth=ctx.pick(4, 5), check=w_check, result_edits=True)
+
+    # ------------------------------------------------ long arrays through the vectorised conversions (mc/longarr.py)
+    from mc.longarr import tiled_elementwise, PERIOD
+    LW = {k: WCS(dict(KINDS[k])) for k in ("tan", "tpv", "sip")}
+
+    def pix_base():
+        t = np.arange(PERIOD, dtype="f8")
+        return 10.0 + 19.5 * t, 4000.0 - 17.25 * t
+
+    def make_sky_base(w):
+        def f():
+            x, y = pix_base()
+            lon, lat = w.image2sky(x, y)
+            return np.asarray(lon, dtype="f8"), np.asarray(lat, dtype="f8")
+        return f
+
+    wspecs = {}
+    for k, w in LW.items():
+        wspecs["%s.image2sky" % k] = (pix_base, (lambda x, y, w=w: w.image2sky(x, y)))
+        wspecs["%s.sky2image(find=False)" % k] = (make_sky_base(w), (lambda lon, lat, w=w: w.sky2image(lon, lat, find=False)))
+    tiled_elementwise(ctx, "long-arrays", wspecs, ctx.pick((100000, 1000000), (65536, 100000, 1000000, 1048576, 2000000)))
